@@ -44,7 +44,29 @@ class GenomeWorld:
 			for d in (self.decoy_cwd, self.namesake_dir):
 				dbutil.write_fasta(d / g['rel'], [other], gz=g['name'].endswith('.gz'))
 			g['namesake'] = {'path': self.namesake_dir / g['rel'], 'rel': g['rel'], 'contigs': [other], 'name': g['name']}
+		# a second, different database (other taxonomy, other reference genomes) for "several databases in one process"
+		rng2 = random.Random(seed + 1)
+		self.taxa2 = dbutil.rand_taxonomy(rng2, ntaxa + 1, thr_values=(None, 0.6, 0.8, 0.95, 1.0))
+		g2, s2, _ = dbutil.rand_genomes_for(rng2, self.taxa2, max(3, n - 2), base_len=base_len, mut=0.02, key_prefix='H')
+		self.dbdir2 = self.sc.subdir('db2')
+		dbutil.build_refdb(self.dbdir2, taxa=self.taxa2, genomes=g2, kspec=self.kspec, seqs=s2, gset_key='test/gset2')
 		self._sig = {}
+
+	def multi_member_gz(self, g):
+		"""the same genome as a gzip file with several members (bgzip / `cat a.gz b.gz` style); same base name"""
+		import gzip as _gz
+		d = self.sc.subdir()
+		name = g['name'] if g['name'].endswith('.gz') else g['name'] + '.gz'
+		p = d / name
+		import io
+		parts = []
+		for i, c in enumerate(g['contigs']):
+			buf = io.BytesIO()
+			with _gz.GzipFile(fileobj=buf, mode='wb') as f:
+				f.write(b'>contig%d test\n' % (i + 1) + c + b'\n')
+			parts.append(buf.getvalue())
+		p.write_bytes(b''.join(parts))
+		return p
 
 	def sig_of(self, g, spec=None):
 		"""real single-genome signature (cached)"""
